@@ -220,6 +220,9 @@ type c16Gen struct {
 
 func (g *c16Gen) id(prefix string) string {
 	g.n++
+	if g.rng.Intn(4) == 0 { // names need not start with a capital: the generator capitalises the Go identifiers
+		prefix = strings.ToLower(prefix[:1]) + prefix[1:]
+	}
 	return fmt.Sprintf("%s%d", prefix, g.n)
 }
 
@@ -300,6 +303,9 @@ func (g *c16Gen) enum() *c16Enum {
 	n := 1 + g.rng.Intn(4)
 	for i := 0; i < n; i++ {
 		mb := c16EnumMb{Key: fmt.Sprintf("%s_K%d", strings.ToUpper(e.Name), i), Kind: 2}
+		if g.rng.Intn(5) == 0 {
+			mb.Key = fmt.Sprintf("k%d_%s", i, e.Name)
+		}
 		switch g.rng.Intn(4) {
 		case 0:
 			mb.Kind, mb.Val = 0, []int64{0, 1, 5, -1, 100, 2147483647, -2147483648}[g.rng.Intn(7)]
@@ -341,7 +347,7 @@ func (g *c16Gen) strct() *c16Struct {
 			if mb.Ty.K == "byte" && !g.opt.Gaps {
 				mb.Ty.K = "short"
 			}
-			if g.opt.Gaps && len(g.enums) > 0 && g.rng.Intn(3) == 0 {
+			if len(g.enums) > 0 && g.rng.Intn(3) == 0 {
 				mb.Ty = &c16Ty{K: "name", Name: g.enums[0].Name}
 			}
 			mb.ArrLen = 1 + g.rng.Intn(4)
